@@ -11,6 +11,8 @@ FAULTS = [
     ("py-expression", ["${ 1 + }"], 0, 0),
     ("py-expression-multiline", ["${ (1,", "  2 +", "  ) }"], "py:0: (1,\n  2 +\n  ) ", 0),
     ("py-control-line", ["% if x == :", "y", "% endif"], 0, 0),
+    ("py-control-line-continued", ["% if a and \\", "     b +* c:", "y", "% endif"], 1, 0),
+    ("py-control-line-continued-twice", ["% for i in [1, \\", "    2, \\", "    3 +* 4]:", "y", "% endfor"], 2, 0),
     ("py-block", ["<%", "  a = 1", "  b = (", "  c = 3", "%>"], None, 0),       # CPython reports '(' never closed at its own line
     ("py-block-bad-token", ["<%", "  a = 1", "  b = 2 +* 3", "  c = 3", "%>"], 2, 0),
     ("py-module-block", ["<%!", "  import os", "  def f(:", "      pass", "%>"], 2, 0),
